@@ -267,6 +267,9 @@ func (w *walker) validate(structName string, value reflect.Value, gather bool, o
 			continue
 		}
 		fv := tv.Field(i)
+		// a field's sub-objects are validated once, however many of its rules (required, exist, both, either twice) ask for it:
+		// every rule instance inside them is one rule instance
+		descended := false
 		for _, item := range lang.SplitOutsideQuotes(rules, ',') {
 			if item == "" {
 				continue
@@ -289,10 +292,12 @@ func (w *walker) validate(structName string, value reflect.Value, gather bool, o
 					}
 					w.emit(ValueClause(structName, sf.Name, "", text))
 				} else {
-					w.exist(false, structName, sf.Name, msg, fv)
+					w.exist(false, structName, sf.Name, msg, fv, descended)
+					descended = true
 				}
 			case "exist":
-				w.exist(true, structName, sf.Name, msg, fv)
+				w.exist(true, structName, sf.Name, msg, fv, descended)
+				descended = true
 			case "either", "botheq":
 				w.addMember(structName, item, sf.Name, fv)
 			default:
@@ -323,13 +328,19 @@ func (w *walker) callFn(fn Fn, item, obj, field string, fv reflect.Value) {
 	}
 }
 
-func (w *walker) exist(isExistRule bool, obj, field, msg string, tv reflect.Value) {
+func (w *walker) exist(isExistRule bool, obj, field, msg string, tv reflect.Value, descended bool) {
 	if tv.IsZero() {
 		return
 	}
 	kind := tv.Kind()
 	if kind == reflect.Ptr && derefType(tv.Type()).Kind() != reflect.Struct {
 		kind = reflect.Invalid
+	}
+	if descended {
+		switch kind {
+		case reflect.Ptr, reflect.Struct, reflect.Slice, reflect.Array, reflect.Map:
+			return
+		}
 	}
 	switch kind {
 	case reflect.Ptr, reflect.Struct:
